@@ -218,7 +218,8 @@ class OptRun:
         self.tag = tag
         self.init_values = init_values
         self.hp_given = hp
-        self.info = dict(cfg=cfg, signature=dict(kind="update-rule"))
+        # what goes into violation records must be picklable / JSON-able: callables (distributed-config factories, wrappers) are left out
+        self.info = dict(cfg={k: v for k, v in cfg.items() if not callable(v)}, signature=dict(kind="update-rule"))
         self.fault_fn = None
         self.params, self.W0 = [], []
         self.build()
@@ -573,19 +574,27 @@ class OptRun:
         from distributed_shampoo import shampoo_types as ST
 
         for gi, sl in enumerate(self.opt._per_group_state_lists):
-            sel = sl[ST.DISTRIBUTOR].local_grad_selector
             pairs = []
-            if ST.FILTERED_GRAD_LIST in sl:
-                pairs.append(("filtered_grad", sl[ST.MASKED_FILTERED_GRAD_LIST], sl[ST.FILTERED_GRAD_LIST]))
-            if ST.MOMENTUM_LIST in sl:
-                pairs.append(("momentum", sl[ST.MASKED_MOMENTUM_LIST], sl[ST.MOMENTUM_LIST]))
-            pairs.append(("blocked_params", sl[ST.MASKED_BLOCKED_PARAMS], sl[ST.DISTRIBUTOR].local_blocked_params))
-            shp = sl[ST.SHAMPOO_PRECONDITIONER_LIST]
-            pairs.append(("kronecker_factors", shp._masked_kronecker_factors_list, shp._local_kronecker_factors_list))
-            pairs.append(("roots", shp._masked_root_list, shp._local_root_list))
-            gr = sl.get(ST.GRAFTING_PRECONDITIONER_LIST)
-            if gr is not None and hasattr(gr, "_masked_preconditioner_list"):
-                pairs.append(("grafting", gr._masked_preconditioner_list, gr._local_preconditioner_list))
+            try:
+                sel = sl[ST.DISTRIBUTOR].local_grad_selector
+                if ST.FILTERED_GRAD_LIST in sl:
+                    pairs.append(("filtered_grad", sl[ST.MASKED_FILTERED_GRAD_LIST], sl[ST.FILTERED_GRAD_LIST]))
+                if ST.MOMENTUM_LIST in sl:
+                    pairs.append(("momentum", sl[ST.MASKED_MOMENTUM_LIST], sl[ST.MOMENTUM_LIST]))
+                pairs.append(("blocked_params", sl[ST.MASKED_BLOCKED_PARAMS], sl[ST.DISTRIBUTOR].local_blocked_params))
+                shp = sl[ST.SHAMPOO_PRECONDITIONER_LIST]
+                for nm, a_, b_ in (("kronecker_factors", "_masked_kronecker_factors_list", "_local_kronecker_factors_list"), ("roots", "_masked_root_list", "_local_root_list")):
+                    if hasattr(shp, a_) and hasattr(shp, b_):
+                        pairs.append((nm, getattr(shp, a_), getattr(shp, b_)))
+                    else:
+                        CTX.events.append(f"internal lists {a_}/{b_} not found: that alignment obligation is skipped (the frame and reference obligations decide the property)")
+                gr = sl.get(ST.GRAFTING_PRECONDITIONER_LIST)
+                if gr is not None and hasattr(gr, "_masked_preconditioner_list") and hasattr(gr, "_local_preconditioner_list"):
+                    pairs.append(("grafting", gr._masked_preconditioner_list, gr._local_preconditioner_list))
+            except (AttributeError, KeyError) as e:
+                # the masked/local pairs are private bookkeeping: if a refactoring renamed them the alignment clause cannot be observed from outside
+                CTX.events.append(f"masked-list alignment not observable ({type(e).__name__}: {e}): skipped")
+                continue
             for name, masked, local in pairs:
                 exp = list(compress(local, sel))
                 ok = len(masked) == len(exp) and all((a is b) or (not isinstance(a, torch.Tensor) and a == b) for a, b in zip(masked, exp))
@@ -732,7 +741,9 @@ def data_policy_generic(sb, cond):
 
 
 def default_opts(tier="quick", **kw):
-    o = dict(query_timeout_ms=30000 if tier == "quick" else 120000, data_policy=data_policy_generic, path_budget_s=300 if tier == "quick" else 1200)
+    # on the unchanged tree the slowest decided query of any optimizer-level check is about 0.2 s (evidence: slowest_query_seconds); the time limit only
+    # matters on the sat side, where an undecided obligation is handed to the generic-value replay anyway
+    o = dict(query_timeout_ms=12000 if tier == "quick" else 60000, data_policy=data_policy_generic, path_budget_s=300 if tier == "quick" else 1200, fork_sat_side=True)
     o.update(kw)
     return o
 
